@@ -101,7 +101,17 @@ class C02(Check):
             fid = [0, (1 << 40) - 3, 1 << 32, None][i % 4]
             if fid is not None:
                 cfg["first_amf_id"] = fid
+            if i:
+                # IMSIs of 15, 14, 13 and 10 digits (the MSIN is what remains after MCC and MNC)
+                total = [15, 14, 13, 10][i % 4]
+                free = total - 3 - len(cfg["mnc"]) - 4
+                cfg["imsi"] = cfg["mcc"] + cfg["mnc"] + r.digits(free) + "000" + str(r.range(1, 9))
             cfgs.append(cfg)
+        # more UEs than a PDU session identity has values in TS 24.007 (1..15): the identities 16, 17 are the recorded
+        # finding session-id-above-15; every UE must still act under its own identities throughout
+        many = proc.default_cfg(counts=[17, 17, 0, 0, 17])
+        many["imsi"] = "208930000000001"
+        cfgs.append(many)
         # one configuration whose session identity exceeds 255 (recorded finding): IMSI ...0300
         big = proc.default_cfg(counts=[1, 1, 0, 0, 0])
         big["imsi"] = "208930000000300"
